@@ -173,6 +173,28 @@ theorem step_accounting (ops : PriceOps P) (m : Market P) (hinv : Inv m) (o : Op
     rw [ea, ef]
     simp only [curVol, goneVol_append, goneVol_map_expired, Book.keepAt, Book.expiredAt]
     omega
+  | jump k f =>
+    simp only [Market.step, Market.setTime]
+    have hb := volOf_filter_partition id (fun x => !x.expired (m.time + (k + 1))) m.buys
+    have hs := volOf_filter_partition id (fun x => !x.expired (m.time + (k + 1))) m.sells
+    simp only [Bool.not_not] at hb hs
+    have ea : accepted id (List.map Rec.expiry
+        (List.map (mkExpiry (m.time + (k + 1))) (Book.expiredAt (m.time + (k + 1)) m.buys) ++
+          List.map (mkExpiry (m.time + (k + 1))) (Book.expiredAt (m.time + (k + 1)) m.sells))) = 0 := by
+      simp only [accepted, List.map_map]
+      apply sum_map_zero
+      intro x _
+      simp
+    have ef : filledIn id (List.map Rec.expiry
+        (List.map (mkExpiry (m.time + (k + 1))) (Book.expiredAt (m.time + (k + 1)) m.buys) ++
+          List.map (mkExpiry (m.time + (k + 1))) (Book.expiredAt (m.time + (k + 1)) m.sells))) = 0 := by
+      simp only [filledIn, List.map_map]
+      apply sum_map_zero
+      intro x _
+      simp
+    rw [ea, ef]
+    simp only [curVol, goneVol_append, goneVol_map_expired, Book.keepAt, Book.expiredAt]
+    omega
   | cancel id' =>
     simp only [Market.step]
     rcases hc : m.cancel ops id' with e | ⟨m', l⟩
@@ -287,6 +309,34 @@ theorem goneInv_step (ops : PriceOps P) (m : Market P) (hinv : Inv m) (hg : Gone
       · exact this.2.1 o ho
   | tick f =>
     simp only [Market.step, Market.tick]
+    intro g hgm
+    simp only [List.mem_append, List.mem_map] at hgm
+    rcases hgm with (⟨e, he, rfl⟩ | ⟨e, he, rfl⟩) | hgm
+    · have hes := List.mem_filter.mp he
+      refine ⟨hinv.sells.idlt e hes.1, ?_, ?_⟩
+      · intro o ho
+        exact hinv.disj o (List.mem_filter.mp ho).1 e hes.1
+      · intro o ho heq
+        have hos := List.mem_filter.mp ho
+        have := eq_of_id_eq m.sells hinv.sells.nodup o e hos.1 hes.1 heq
+        subst this
+        have h1 := hes.2; have h2 := hos.2
+        simp [h1] at h2
+    · have hes := List.mem_filter.mp he
+      refine ⟨hinv.buys.idlt e hes.1, ?_, ?_⟩
+      · intro o ho heq
+        have hos := List.mem_filter.mp ho
+        have := eq_of_id_eq m.buys hinv.buys.nodup o e hos.1 hes.1 heq
+        subst this
+        have h1 := hes.2; have h2 := hos.2
+        simp [h1] at h2
+      · intro o ho heq
+        exact hinv.disj e hes.1 o (List.mem_filter.mp ho).1 heq.symm
+    · have := hg g hgm
+      exact ⟨this.1, fun o ho => this.2.1 o (List.mem_filter.mp ho).1,
+        fun o ho => this.2.2 o (List.mem_filter.mp ho).1⟩
+  | jump k f =>
+    simp only [Market.step, Market.setTime]
     intro g hgm
     simp only [List.mem_append, List.mem_map] at hgm
     rcases hgm with (⟨e, he, rfl⟩ | ⟨e, he, rfl⟩) | hgm
